@@ -186,6 +186,70 @@ def run(ctx):
             if results.get(t) != seq:
                 ctx.fail("a concurrent call returns another outcome than the sequential call on the same input",
                          {"inputs": per_thread, "schedule": order, "thread": t, "got": results.get(t), "sequential": seq})
+    # ---- preemption at EVERY line of luqum's own code: thread A is paused at a line of luqum/*.py (tree.py and
+    # head_tail.py included), another thread runs one complete parse, A resumes. Module-level scratch state (a flag,
+    # a shared decimal context, attributes of a singleton) written before and read after such a line shows
+    # (seeded C14-E / C14-G)
+    import os
+    import queue
+    impl_dir = os.path.join(common.snapshot_impl(), "luqum") + os.sep
+    for i in range(ctx.budget(6, 60)):
+        qa = gen.QueryGen(rng, long_nums=True, bad_nums=rng.random() < 0.3)
+        qb = gen.QueryGen(rng, long_nums=rng.random() < 0.3)
+        a_q = rng.choice([qa.query(), qa.query(), "x^1.0000000000000000000000000000001 [a TO b] y~2",
+                          "f:[1 TO 2] AND (g:{a TO b} OR c^2.50)", "(a [1 TO"])
+        b_qs = [qb.query() for _ in range(3)] + ["k^2.50 [1 TO 3]", "{a TO b} x~0.50", "(u", "v]"]
+        a_seq = parsing.impl_parse(a_q, "module")[0]
+        b_seq = {q: parsing.impl_parse(q, "module")[0] for q in b_qs}
+        jobs, done = queue.Queue(), queue.Queue()
+
+        def b_worker():
+            while True:
+                q = jobs.get()
+                if q is None:
+                    return
+                done.put((q, parsing.impl_parse(q, "thread")[0]))
+        tb = threading.Thread(target=b_worker)
+        tb.start()
+        bad_b = []
+        lines = [0]
+        every = rng.choice([1, 2, 3])
+
+        def tracer(frame, event, arg):
+            if not frame.f_code.co_filename.startswith(impl_dir):
+                return None
+            if event == "line":
+                lines[0] += 1
+                if lines[0] % every == 0 and lines[0] < 4000:
+                    q = b_qs[lines[0] % len(b_qs)]
+                    jobs.put(q)
+                    qq, r = done.get(timeout=60)
+                    if r != b_seq[qq]:
+                        bad_b.append((qq, r))
+            return tracer
+        a_res = {}
+
+        def a_worker():
+            I.thread.parse("warm up")
+            sys.settrace(tracer)
+            try:
+                a_res["r"] = parsing.impl_parse(a_q, "thread")[0]
+            finally:
+                sys.settrace(None)
+        ta = threading.Thread(target=a_worker)
+        ta.start()
+        ta.join(timeout=300)
+        jobs.put(None)
+        tb.join(timeout=60)
+        ctx.case(("line preemption", a_q, every), nontrivial=lines[0] > 10)
+        ctx.count("line-level preemption points", lines[0] // every)
+        if a_res.get("r") != a_seq:
+            ctx.fail("a call paused at lines of luqum's own code while another thread parses returns another outcome "
+                     "than the sequential call", {"input": a_q, "others": b_qs, "got": a_res.get("r"), "sequential": a_seq})
+        if bad_b:
+            ctx.fail("a call made while another thread is paused inside a parse returns another outcome than the "
+                     "sequential call", {"input": bad_b[0][0], "paused": a_q, "got": bad_b[0][1],
+                                         "sequential": b_seq[bad_b[0][0]]})
     # free-running stress with a tiny switch interval (no scheduler): byte-code level preemption
     old = sys.getswitchinterval()
     try:
@@ -193,7 +257,7 @@ def run(ctx):
         for i in range(ctx.budget(3, 40)):
             qs = []
             for _ in range(6):
-                qg = gen.QueryGen(rng, bad_nums=rng.random() < 0.2)
+                qg = gen.QueryGen(rng, bad_nums=rng.random() < 0.2, long_nums=rng.random() < 0.4)
                 qs.append(gen.malformed(rng, qg) if rng.random() < 0.25 else qg.query())
             expected = [parsing.impl_parse(q, "module")[0] for q in qs]
             got = [None] * len(qs)
